@@ -650,6 +650,54 @@ def purity_facts(tree):
     return dict(copies=copies, asdict_member=all(reads))
 
 
+def cache_key_facts(tree, base):
+    """merge_record_descriptors is memoised on its arguments (functools.lru_cache), so two calls with EQUAL descriptor tuples
+    share one result: RecordDescriptor.__eq__ must be structural (name and field tuples).  Shape of __eq__ by ast; a
+    behavioural probe on constructed descriptor pairs whose identifier input collides backs it up."""
+    q = "RecordDescriptor.__eq__"
+    fn = find_def(tree, q)
+    if params(fn) != ["self", "other"]:
+        raise Unsupported("%s parameters are %r" % (q, params(fn)))
+    body = strip_doc(fn.body)
+    if len(body) != 2 or match("return NotImplemented", body[1]) is None or not (
+            isinstance(body[0], ast.If) and not body[0].orelse and len(body[0].body) == 1
+            and match("isinstance(other, RecordDescriptor)", body[0].test, None, "expr") is not None):
+        raise Unsupported("%s has another shape" % q)
+    ret = body[0].body[0]
+    i, _ = match_any([
+        "return self.name == other.name and self.get_field_tuples() == other.get_field_tuples()",
+        "return self.get_field_tuples() == other.get_field_tuples() and self.name == other.name",
+        "return (self.name, self.get_field_tuples()) == (other.name, other.get_field_tuples())",
+        "return self.name == other.name and self._field_tuples == other._field_tuples",
+        "return self._pack() == other._pack()",
+        "return self.identifier == other.identifier",
+        "return self.descriptor_hash == other.descriptor_hash and self.name == other.name",
+        "return hash(self) == hash(other)",
+    ], ret)
+    if i is None:
+        raise Unsupported("%s: the comparison is neither the structural one nor a comparison of identifiers" % where(q, ret))
+    structural = i <= 4
+    # the memoised functions keyed by descriptors
+    fnm = find_def(tree, "merge_record_descriptors")
+    deco = [ast.unparse(d) for d in fnm.decorator_list]
+    if not any("lru_cache" in d for d in deco):
+        deco = []
+    # behavioural probe: descriptors of one name whose (field name + typename) concatenations coincide
+    pairs = [([("string", "aw")], [("wstring", "a")]), ([("string[]", "xw")], [("wstring[]", "x")]),
+             ([("stringlist", "a"), ("varint", "b")], [("string", "a"), ("varint", "listb")]),
+             ([("varint", "a"), ("string", "b")], [("string", "avarintb")])]
+    distinguishes = True
+    for fa, fb in pairs:
+        da, db = base.RecordDescriptor("probe/eq", fa), base.RecordDescriptor("probe/eq", fb)
+        if da == db or not (da != db):
+            distinguishes = False
+        if base.RecordDescriptor("probe/eq", fa) != da:
+            raise Unsupported("RecordDescriptor.__eq__ does not identify equal definitions")
+    if structural and not distinguishes:
+        raise Unsupported("RecordDescriptor.__eq__ looks structural but does not distinguish different definitions")
+    return dict(structural=structural and distinguishes, memoised=bool(deco))
+
+
 def gen_compose():
     import flow.record.base as base
     import flow.record.stream as stream
@@ -663,6 +711,7 @@ def gen_compose():
     r = replace_facts(btree)
     w = rewriter_facts(stree)
     pu = purity_facts(btree)
+    ck = cache_key_facts(btree, base)
     ts = base.TimestampRecord
     tsf = list(ts.get_field_tuples())
     if len(tsf) != 2:
@@ -684,6 +733,10 @@ def gen_compose():
     out += "   and without fields= *)\n"
     out += "Definition gen_all_fields_copies : bool := %s.\n" % cbool(pu["copies"])
     out += "Definition gen_group_asdict_reads_member : bool := %s.\n\n" % cbool(pu["asdict_member"])
+    out += "(* RecordDescriptor.__eq__ compares name and field tuples (and distinguishes constructed descriptor pairs whose\n"
+    out += "   identifier input collides); merge_record_descriptors is memoised on its arguments: %s *)\n" % ("functools.lru_cache" if ck["memoised"] else "no")
+    out += "Definition gen_desc_eq_structural : bool := %s.\n" % cbool(ck["structural"])
+    out += "Definition gen_merge_memoised : bool := %s.\n\n" % cbool(ck["memoised"])
     out += "(* attributes a GroupedRecord object itself carries (assigned in GroupedRecord.__init__) *)\n"
     out += "Definition gen_group_attrs : list string := %s.\n\n" % clist([cstr(a) for a in g["attrs"]])
     out += "(* shapes read from merge_record_descriptors, extend_record, RecordDescriptor.init_from_dict,\n"
